@@ -14,7 +14,8 @@ import common, impl, sweep
 import segno
 from segno import helpers
 
-TOP = ['theories/Props/C16.v', 'theories/Tie/TieTables.v']
+TOP = ['theories/Props/C16.v', 'theories/Tie/TieTables.v', 'theories/Tie/TieHelpersEsc.v', 'theories/Tie/TieHelpersWifi.v',
+       'theories/Tie/TieHelpersMecard.v', 'theories/Tie/TieHelpersVcard.v', 'theories/Tie/TieHelpersMisc.v']
 RULE = ('adversarial field values (delimiters ; : , \\ ", backslash before a delimiter, CR/LF, empty strings, multi-valued fields, non-ASCII incl. '
         'astral, lone surrogates, strings at the EPC limits 70/71 140/141 35/36 34/35 4/5, amounts around 0.01 and 999999999.99, all eight EPC '
         'encodings by number / name / auto-selection) -> real make_*_data / _make_epc_qr_data; every payload is parsed by the extracted independent '
